@@ -41,6 +41,7 @@ type Sim struct {
 	SetHistory [][]string // consensus sets in force over time (peer ids)
 	badSince   int        // rejected Byzantine submissions since the last committed block
 	LastTrace  *BlockTrace
+	Dead       bool // a node diverged from the engine's chain after a reported violation: the run stops
 	// BeforeCommit, if set, is called with the block's trace after the generic oracles ran and
 	// BEFORE the block is committed: only then do TxTrace.Pre/.Post read the true per-transaction
 	// states (views fall through to the committed ledger for keys the prefix did not write).
